@@ -252,6 +252,32 @@ def run(ctx, pid, rule=None):
         gl = {p: v for p, v in a["lits"].items() if p not in star}
         ctx.ob(rule, key + ":literals", wl == gl, "scalar literals flowing into the native arguments equal the row",
                expected=wl, found=gl, where=a["sites"][0] if a["sites"] else "")
+        # a wrapper that returns Result must not produce an Ok verdict without having gone through the native call
+        # (directly, or through the closure it hands to py.detach): no early `return Ok(..)` shortcut in the binding
+        if want_calls == 1 and not r.get("no_ret_guard"):
+            top = Scope(Body(ctx.fb.fns[wp], ctx.fb))
+            tb = top.b
+            oks = tb.ok_exits()
+            if oks:
+                through = [tb.blocks[bi]["t"].get("t") for bi, nm, t in tb.calls() if flat(nm) == native]
+                through = [x for x in through if x is not None]
+                if not through:
+                    # native call lives in a closure: the blocks that build a closure (transitively) containing it
+                    host = set()
+                    for sc in scopes_of(ctx.fb, ctx.fb.fns[wp]):
+                        if sc.parent is not None and any(flat(nm) == native for bi, nm, t in sc.b.calls()):
+                            x = sc
+                            while x.parent is not None and x.parent.parent is not None:
+                                x = x.parent
+                            host.add(x.b.path)
+                    for bi, blk in enumerate(tb.blocks):
+                        if bi in tb.reach and any(st["k"] == "assign" and st["rv"]["k"] == "agg" and st["rv"].get("ak") == "closure" and st["rv"].get("closure") in host
+                                                  for st in blk["s"]):
+                            through.append(bi)
+                p_ = tb.witness_path(0, oks, through) if through else [0]
+                ctx.ob(rule, key + ":verdict-from-native", p_ is None,
+                       "every Ok return of the wrapper has gone through the native call (no shortcut verdict in the binding)",
+                       where=ctx.fb.fns[wp].sp)
         ctx.sample({"rule": rule, "wrapper": wp, "native": native, "roles": got, "literals": gl})
     return n
 
